@@ -23,7 +23,9 @@ def hexByte (n : Nat) : String :=
   String.ofList [d (n / 16 % 16), d (n % 16)]
 
 /-- `{"m":"stdio_writer","items":[{"k":"value","v":<json>} | {"k":"raw","s":"…"} | {"k":"unser"}],
-     "close":bool,"style":"compact"|"std"}`
+     "close":bool,"style":"compact"|"std",
+     "rejs":[<json> …]?, "sched":[bool …]?}`   (second writer: rejection lines of the reader task,
+     interleaved with the writer task's sends by the schedule, `true` = writer task next)
    -> `{"bytes":"<hex>","sends":n,"closed":bool}` -/
 def handle (j : Lean.Json) : Except String Lean.Json := do
   let items ← (← j.getObjValAs? (Array Lean.Json) "items").toList.mapM (fun it => do
@@ -36,9 +38,16 @@ def handle (j : Lean.Json) : Except String Lean.Json := do
   let sty := match j.getObjValAs? String "style" with
     | .ok "std" => Style.std
     | _ => Style.compact
+  let rejs ← match j.getObjValAs? (Array Lean.Json) "rejs" with
+    | .ok a => a.toList.mapM fromJson
+    | .error _ => pure []
+  let sched := match j.getObjValAs? (Array Bool) "sched" with
+    | .ok a => a.toList
+    | .error _ => []
   let o := writer sty items close
+  let bytes := if rejs.isEmpty then o.bytes else childBytes2 sty items rejs sched
   return Lean.Json.mkObj [
-    ("bytes", Lean.Json.str (String.join (o.bytes.map hexByte))),
+    ("bytes", Lean.Json.str (String.join (bytes.map hexByte))),
     ("sends", toJson (sends sty items).length),
     ("closed", Lean.Json.bool o.stdinClosed)]
 end Verif.Drv.StdioOut
